@@ -432,7 +432,7 @@ func randomStream(r *rng, k streamKnobs) []byte {
 			l := ls[r.intn(len(ls))]
 			d := defs[l]
 			p := randomPayload(r, d.d, k)
-			if l == 0 {
+			if l == 0 && d.d.global == 0 && len(d.d.fields) == 1 && d.d.fields[0].num == 0 {
 				p = []byte{hostedFileTypes()[r.intn(len(hostedFileTypes()))]}
 			}
 			if k.compressed && l < 4 && r.chance(50) {
